@@ -1,4 +1,5 @@
-"""C14 -- flow graph: node concurrency limits and one disposition per message inside the aggregator handler; single open reservation."""
+"""C14 -- flow graph: node concurrency limits and one disposition per message inside the aggregator handler; single open reservation; async_node gateway binding
+(constructors, copy constructor, reset path, body invocation, gateway reserve/release_wait and try_put); owner re-binding in join_node / indexer_node constructors."""
 import os
 import sys
 import re
@@ -343,12 +344,537 @@ def extract_wait(ctx, sliced, fired):
     fired['graph wait / reference vertex'] = dict(rw.fired)
 
 
+# ---------------------------------------------------------------------------------------------------------------------------------
+# ASYNC: async_node (constructors, copy constructor, reset path, gateway, body invocation) on one flattened C object
+# ---------------------------------------------------------------------------------------------------------------------------------
+def ctor_init_list(rw, text, order, cls, scalars=()):
+    """`C(params) : a(x), b(y, z) {body}` -> (`params`, init statements in DECLARED order, body without braces).
+    A member listed in `scalars` becomes `self->a = x;` (built-in type: initialisation is assignment); every other item (base class, class-type member,
+    delegated constructor) becomes `INIT_<cls>_<name>(self, args);` which the harness maps to the callee's constructor."""
+    mk = cxx2c.mask(text)
+    o = mk.find('(')
+    c = cxx2c.match_close(mk, o, '(', ')')
+    params = text[o + 1:c]
+    b = None
+    i = c + 1
+    while i < len(mk):
+        ch = mk[i]
+        if ch == '(':
+            i = cxx2c.match_close(mk, i, '(', ')')
+        elif ch == '{':
+            k = i - 1
+            while mk[k].isspace():
+                k -= 1
+            if mk[k] in ')}':
+                b = i
+                break
+            i = cxx2c.match_close(mk, i)
+        i += 1
+    if b is None:
+        raise ExtractionBreak('%s: constructor body not found' % cls)
+    il = text[c + 1:b].strip()
+    items = []
+    if il:
+        if not il.startswith(':'):
+            raise ExtractionBreak('%s: cannot parse init list %r' % (cls, il[:80]))
+        for it in cxx2c.split_args(il[1:]):
+            im = re.match(r'\s*(\w+)\s*(?:<[^()]*>)?\s*[\(\{](.*)[\)\}]\s*$', it, re.S)
+            if not im:
+                raise ExtractionBreak('%s: cannot parse init-list item %r' % (cls, it))
+            if im.group(1) not in order:
+                raise ExtractionBreak('%s: init-list member %s not in the declared-order table' % (cls, im.group(1)))
+            items.append((order.index(im.group(1)), im.group(1), ' '.join(im.group(2).split())))
+    items.sort()
+    rw.fired[cls + ':init-list->assignments / INIT_<cls>_<member>(self, args) (declared order)'] = len(items)
+    init = ''
+    for _, nm, a in items:
+        if nm in scalars:
+            init += '    self->%s = %s;\n' % (nm, a if a else '0')
+        else:
+            init += '    INIT_%s_%s(self%s);\n' % (cls, nm, (', ' + a) if a else '')
+    e = cxx2c.match_close(mk, b)
+    return params, init, text[b + 1:e]
+
+
+def _rules(rw, t, rules, what):
+    for pat, rep in rules:
+        t = rw.sub(t, pat, rep, 0, None, name='%s: %s' % (what, pat))
+    return t
+
+
+def extract_async(ctx, sliced, fired, m15):
+    rw = Rewriter('async_node')
+    out = []
+
+    def note(s, what):
+        sliced.append('%s:%d %s' % (s.rel, s.line, what))
+
+    def fields(t, names):
+        return rw.sub(t, r'(?<![\w.>])(%s)\b(?!\s*\()' % '|'.join(names), r'self->\1', 0, None, name='field')
+
+    def ctor(s, cls, order, scalars, csig, rules=(), pre=(), flds=()):
+        text = s.text
+        for pat, rep in pre:           # before the init list is split (template arguments contain commas)
+            text = rw.sub(text, pat, rep, 0, None, name='%s: %s' % (cls, pat))
+        params, init, body = ctor_init_list(rw, text, order, cls, scalars)
+        t = init + body
+        t = _rules(rw, t, rules, cls)
+        if flds:
+            t = fields(t, flds)
+        t = rw.sub(t, r'\bthis\b', 'self', 0, None, name='this')
+        return csig + ' {\n' + t + '}\n'
+
+    def meth(s, sig, csig, rules=(), flds=(), what=''):
+        t = rw.sub(s.text, sig, csig, 1, 1, name='sig ' + what)
+        t = _rules(rw, t, rules, what)
+        if flds:
+            hd, body = t[:t.index('{')], t[t.index('{'):]
+            t = hd + fields(body, flds)
+        t = rw.sub(t, r'\bthis->', 'self->', 0, None, name='this->')
+        return t + '\n'
+
+    FGT = [r'fgt_multioutput_node_with_body<\w+>', r'fgt_async_reserve', r'fgt_async_commit', r'fgt_async_try_put_begin', r'fgt_async_try_put_end', r'fgt_begin_body', r'fgt_end_body']
+    # ---- async_body_base / async_body ------------------------------------------------------------------------------------------
+    W_ABB = r'class async_body_base: no_assign \{'
+    W_AB = r'class async_body: public async_body_base<Gateway> \{'
+    abb = CClass(FG, W_ABB, 'abody', rw=rw)
+    abb.harvest_members(['my_gateway'])
+    ab = CClass(FG, W_AB, 'abody', rw=rw)
+    ab.harvest_members(['my_body'])
+    if abb.members[0][0].replace(' ', '') != 'gateway_type*' or ab.members[0][0] != 'Body':
+        raise ExtractionBreak('async_body_base::my_gateway / async_body::my_body declarations changed: %r %r' % (abb.members, ab.members))
+    s = slice_block(FG, r'async_body_base\(gateway_type \*gateway\)', within=W_ABB, ctor=True)
+    note(s, 'async_body_base::async_body_base')
+    out.append(ctor(s, 'abody_base', ['my_gateway'], ['my_gateway'], 'void async_body_base_ctor(struct abody* self, struct gateway_impl* gateway)'))
+    s = slice_block(FG, r'void set_gateway\(gateway_type \*gateway\)', within=W_ABB)
+    note(s, 'async_body_base::set_gateway')
+    out.append(meth(s, r'void set_gateway\(gateway_type \*gateway\)', 'void async_body_base_set_gateway(struct abody* self, struct gateway_impl* gateway)', flds=['my_gateway'], what='set_gateway'))
+    s = slice_block(FG, r'async_body\(const Body &body, gateway_type \*gateway\)', within=W_AB, ctor=True)
+    note(s, 'async_body::async_body')
+    out.append(ctor(s, 'abody', ['base_type', 'my_body'], [], 'void async_body_ctor(struct abody* self, Body* body, struct gateway_impl* gateway)'))
+    s = slice_block(FG, r'void operator\(\)\( const Input &v, Ports & \)', within=W_AB)
+    note(s, 'async_body::operator()')
+
+    def ref_args(conv):
+        def fn(m, a):
+            return conv[0] + '(' + ', '.join(conv[1](x) for x in a) + ')'
+        return fn
+    t = rw.sub(s.text, r'void operator\(\)\( const Input &v, Ports & \) noexcept\(noexcept\(tbb::detail::invoke\(my_body, v, std::declval<gateway_type&>\(\)\)\)\)',
+               'void async_body_call(struct abody* self, input_type* v, struct ports* unused_ports)', 1, 1, name='sig async_body::operator() (noexcept specification dropped)')
+
+    def refarg(x):     # argument bound to a reference parameter: `*p` -> p, a reference parameter (already a pointer) stays, an lvalue -> its address
+        x = x.strip()
+        if x.startswith('*'):
+            return x[1:]
+        if x in ('v', 'input', 'oset', 'i'):
+            return x
+        return '&' + x
+    t = rw.call(t, r'tbb::detail::invoke', ref_args(('INVOKE_user_body', refarg)), 0, name='tbb::detail::invoke(user body, ...) -> INVOKE_user_body (reference arguments -> pointers)')
+    t = fields(t, ['my_body'])
+    t = rw.sub(t, r'\bthis->', 'self->', 0, None, name='this->')
+    out.append(t + '\n')
+    # ---- multifunction_body_leaf -------------------------------------------------------------------------------------------------
+    W_LEAF = r'class multifunction_body_leaf : public multifunction_body<Input, OutputSet> \{'
+    lf = CClass(BI, W_LEAF, 'mfleaf', rw=rw)
+    lf.harvest_members(['body'])
+    if lf.members[0][0] != 'B':
+        raise ExtractionBreak('multifunction_body_leaf::body declaration changed')
+    s = slice_block(BI, r'multifunction_body_leaf\(const B &_body\)', within=W_LEAF, ctor=True)
+    note(s, 'multifunction_body_leaf::multifunction_body_leaf')
+    out.append(ctor(s, 'mfleaf', ['body'], [], 'void mfleaf_ctor(struct mfleaf* self, struct abody* _body)'))
+    s = slice_block(BI, r'void operator\(\)\(const Input &input, OutputSet &oset\) override', within=W_LEAF)
+    note(s, 'multifunction_body_leaf::operator()')
+    t = rw.sub(s.text, r'void operator\(\)\(const Input &input, OutputSet &oset\) override', 'void mfleaf_call(struct mfleaf* self, input_type* input, struct ports* oset)', 1, 1, name='sig leaf::operator()')
+    t = rw.call(t, r'tbb::detail::invoke', ref_args(('INVOKE_leaf_body', refarg)), 0, name='tbb::detail::invoke(B, ...) -> INVOKE_leaf_body (reference arguments -> pointers)')
+    t = fields(t, ['body'])
+    out.append(t + '\n')
+    s = slice_block(BI, r'void\* get_body_ptr\(\) override', within=W_LEAF)
+    note(s, 'multifunction_body_leaf::get_body_ptr')
+    out.append(meth(s, r'void\* get_body_ptr\(\) override', 'void* mfleaf_get_body_ptr(struct mfleaf* self)', flds=['body'], what='get_body_ptr'))
+    s = slice_block(BI, r'multifunction_body_leaf\* clone\(\) override', within=W_LEAF)
+    note(s, 'multifunction_body_leaf::clone')
+    t = rw.sub(s.text, r'multifunction_body_leaf\* clone\(\) override', 'struct mfleaf* mfleaf_clone(struct mfleaf* self)', 1, 1, name='sig clone')
+    t = rw.call(t, r'new multifunction_body_leaf<[^()]*>', ref_args(('NEW_mfleaf', refarg)), 0, name='new leaf(body) -> NEW_mfleaf(&body)')
+    t = fields(t, ['body'])
+    out.append(t + '\n')
+    NEWLEAF = (r'new multifunction_body_leaf<input_type, output_ports_type, Body>\((\w+)\)', r'NEW_mfleaf(\1)')
+    # ---- function_input_base: constructors, reset_function_input_base ------------------------------------------------------------------
+    W_FIB = r'class function_input_base : public receiver<Input>, no_assign \{'
+    fb = CClass(NI, W_FIB, 'fib', rw=rw)
+    fb.harvest_members(['my_graph_ref', 'my_max_concurrency', 'my_concurrency', 'my_priority', 'my_is_no_throw', 'my_queue', 'my_predecessors', 'forwarder_busy'])
+    s = slice_block(NI, r'function_input_base\( graph &g, size_t max_concurrency, node_priority_t a_priority, bool is_no_throw \)', within=W_FIB, ctor=True)
+    note(s, 'function_input_base::function_input_base')
+    out.append(ctor(s, 'fib', fb.member_names(), ['my_graph_ref', 'my_max_concurrency', 'my_concurrency', 'my_priority', 'my_is_no_throw', 'forwarder_busy'],
+                    'void fib_ctor(struct async_node* self, graph* g, size_t max_concurrency, int a_priority, bool is_no_throw)',
+                    pre=[(r'!has_policy<rejecting, Policy>::value \? new input_queue_type\(\) : nullptr', 'POLICY_QUEUE_OR_NULL')],
+                    rules=[(r'my_aggregator\.initialize_handler\(handler_type\(this\)\);', 'STUB_initialize_handler(self);')]))
+    s = slice_block(NI, r'function_input_base\( const function_input_base& src \)', within=W_FIB, ctor=True)
+    note(s, 'function_input_base::function_input_base(const&)')
+    out.append(ctor(s, 'fib_copy', ['function_input_base'], [], 'void fib_copy_ctor(struct async_node* self, const struct async_node* src)', rules=[(r'\bsrc\.', 'src->')]))
+    s = slice_block(NI, r'void reset_function_input_base\( reset_flags f\)', within=W_FIB)
+    note(s, 'function_input_base::reset_function_input_base')
+    out.append(meth(s, r'void reset_function_input_base\( reset_flags f\)', 'void fib_reset_function_input_base(struct async_node* self, int f)',
+                    rules=[(r'my_queue->reset\(\);', 'STUB_queue_reset(my_queue);'), (r'(?<![\w.>])reset_receiver\(f\);', 'STUB_reset_receiver(self, f);')],
+                    flds=['my_concurrency', 'my_queue', 'forwarder_busy'], what='reset_function_input_base'))
+    # ---- multifunction_input ----------------------------------------------------------------------------------------------------------
+    W_MFI = r'class multifunction_input : public function_input_base<'
+    mi = CClass(NI, W_MFI, 'mfinput', rw=rw)
+    mi.harvest_members(['my_body', 'my_init_body', 'my_output_ports'])
+    order = ['base_type'] + mi.member_names()
+    PORTS = (r'init_output_ports<output_ports_type>::call\(', 'PORTS_INIT_CALL(')
+    s = slice_block(NI, r'multifunction_input\(graph &g, size_t max_concurrency,Body& body, node_priority_t a_priority \)', within=W_MFI, ctor=True)
+    note(s, 'multifunction_input::multifunction_input')
+    out.append(ctor(s, 'mfinput', order, ['my_body', 'my_init_body'], 'void mfinput_ctor(struct async_node* self, graph* g, size_t max_concurrency, struct abody* body, int a_priority)',
+                    pre=[(r'noexcept\(tbb::detail::invoke\(body, input_type\(\), my_output_ports\)\)', 'NOEXCEPT_OF_BODY'), NEWLEAF, PORTS], flds=['my_output_ports', 'my_body', 'my_init_body']))
+    s = slice_block(NI, r'multifunction_input\( const multifunction_input& src \)', within=W_MFI, ctor=True)
+    note(s, 'multifunction_input::multifunction_input(const&)')
+    out.append(ctor(s, 'mfinput_copy', order, ['my_body', 'my_init_body'], 'void mfinput_copy_ctor(struct async_node* self, const struct async_node* src)',
+                    pre=[PORTS], rules=[(r'\bsrc\.', 'src->'), (r'(\w+(?:->\w+)*)->clone\(\)', r'MFBODY_clone(\1)')], flds=['my_output_ports', 'my_body', 'my_init_body']))
+    s = slice_block(NI, r'~multifunction_input\(\)', within=W_MFI)
+    note(s, 'multifunction_input::~multifunction_input')
+    out.append(meth(s, r'~multifunction_input\(\)', 'void mfinput_dtor(struct async_node* self)', rules=[(r'\bdelete (\w+);', r'DELETE_mfbody(\1);')], flds=['my_body', 'my_init_body'], what='~multifunction_input'))
+    s = m15.resolved(slice_block(NI, r'graph_task\* apply_body_impl_bypass\( const input_type &i', within=W_MFI), 'apply_body_impl_bypass')
+    note(s, 'multifunction_input::apply_body_impl_bypass')
+    t = rw.sub(s.text, r'graph_task\* apply_body_impl_bypass\( const input_type &i\s*\)', 'graph_task* mfinput_apply_body_impl_bypass(struct async_node* self, input_type* i)', 1, 1, name='sig apply_body_impl_bypass')
+    t = rw.nop_calls(t, FGT)
+    t = rw.call(t, r'\(\*(\w+)\)', lambda m, a: 'MFBODY_call(%s, %s)' % (m.group(1), ', '.join(refarg(x) for x in a)), 0, name='virtual (*body)(i, ports) -> MFBODY_call (reference arguments -> pointers)')
+    t = rw.sub(t, r'base_type::my_max_concurrency', 'my_max_concurrency', 0, None, name='base-qualified member')
+    t = rw.sub(t, r'base_type::try_get_postponed_task\(i\)', 'STUB_try_get_postponed_task(self, i)', 0, None, name='callee stub (aggregator op app_body_bypass: job node.handle_one_operation)')
+    hd, body = t[:t.index('{')], t[t.index('{'):]
+    t = hd + fields(body, ['my_body', 'my_init_body', 'my_output_ports', 'my_max_concurrency'])
+    t = rw.std(t)
+    out.append(t + '\n')
+    s = slice_block(NI, r'void reset\(reset_flags f\)', within=W_MFI)
+    note(s, 'multifunction_input::reset')
+    t = meth(s, r'void reset\(reset_flags f\)', 'void mfinput_reset(struct async_node* self, int f)',
+             rules=[(r'base_type::reset_function_input_base\(f\);', 'fib_reset_function_input_base(self, f);'),
+                    (r'clear_element<N>::clear_this\(my_output_ports\);', 'STUB_clear_ports(&my_output_ports);'),
+                    (r'clear_element<N>::this_empty\(my_output_ports\)', 'STUB_ports_empty(&my_output_ports)'),
+                    (r'multifunction_body_type\* (\w+) =', r'struct mfleaf* \1 ='),
+                    (r'(\w+(?:->\w+)*)->clone\(\)', r'MFBODY_clone(\1)'), (r'\bdelete (\w+);', r'DELETE_mfbody(\1);')],
+             flds=['my_body', 'my_init_body', 'my_output_ports'], what='multifunction_input::reset')
+    t = rw.asserts(t)
+    out.append(t)
+    # ---- output ports: function_output / multifunction_output constructors, successor_cache / broadcast_cache constructors ----------------------
+    W_FO = r'class function_output : public sender<Output> \{'
+    fo = CClass(NI, W_FO, 'port', rw=rw)
+    fo.harvest_members(['my_successors', 'my_graph_ref'])
+    s = slice_block(NI, r'function_output\(graph& g\)', within=W_FO, ctor=True)
+    note(s, 'function_output::function_output')
+    out.append(ctor(s, 'port', fo.member_names(), ['my_graph_ref'], 'void function_output_ctor(struct port* self, graph* g)'))
+    W_MO = r'class multifunction_output : public function_output<Output> \{'
+    s = slice_block(NI, r'multifunction_output\(graph& g\)', within=W_MO, ctor=True)
+    note(s, 'multifunction_output::multifunction_output')
+    out.append(ctor(s, 'mfport', ['base_type'], [], 'void multifunction_output_ctor(struct port* self, graph* g)'))
+    s = slice_block(NI, r'multifunction_output\(const multifunction_output& other\)', within=W_MO, ctor=True)
+    note(s, 'multifunction_output::multifunction_output(const&)')
+    out.append(ctor(s, 'mfport_copy', ['base_type'], [], 'void multifunction_output_copy_ctor(struct port* self, const struct port* other)', rules=[(r'\bother\.', 'other->')]))
+    s = slice_block(CI, r'successor_cache\( owner_type\* owner \)', within=r'class successor_cache : no_copy \{', ctor=True)
+    note(s, 'successor_cache::successor_cache')
+    out.append(ctor(s, 'scache', ['my_owner'], ['my_owner'], 'void successor_cache_ctor(struct cache* self, struct port* owner)'))
+    s = slice_block(CI, r'broadcast_cache\( typename base_type::owner_type\* owner \)', within=r'class broadcast_cache : public successor_cache<T, M> \{', ctor=True)
+    note(s, 'broadcast_cache::broadcast_cache')
+    out.append(ctor(s, 'bcache', ['base_type'], [], 'void broadcast_cache_ctor(struct cache* self, struct port* owner)'))
+    # ---- graph_node / multifunction_node ---------------------------------------------------------------------------------------------
+    s = slice_block(FG, r'inline graph_node::graph_node\(graph& g\)', ctor=True)
+    note(s, 'graph_node::graph_node')
+    t = rw.sub(s.text, r'inline graph_node::graph_node\(graph& g\)', 'graph_node(graph& g)', 1, 1, name='sig graph_node')
+    out.append(ctor(Slice(s.rel, s.start, s.end, t, s.line), 'graph_node', ['my_graph'], ['my_graph'], 'void graph_node_ctor(struct async_node* self, graph* g)',
+                    rules=[(r'my_graph\.register_node\(this\);', 'STUB_register_node(my_graph, self);')], flds=['my_graph']))
+    W_MFN = r'class multifunction_node :'
+    s = slice_block(FG, r'multifunction_node\(\s*graph &g, size_t concurrency,\s*Body body, Policy = Policy\(\), node_priority_t a_priority = no_priority\s*\)', within=W_MFN, ctor=True)
+    note(s, 'multifunction_node::multifunction_node')
+    t = rw.nop_calls(s.text, FGT)
+    out.append(ctor(Slice(s.rel, s.start, s.end, t, s.line), 'mfnode', ['graph_node', 'input_impl_type'], [], 'void mfnode_ctor(struct async_node* self, graph* g, size_t concurrency, struct abody body, int a_priority)'))
+    s = slice_block(FG, r'multifunction_node\( const multifunction_node &other\)', within=W_MFN, ctor=True)
+    note(s, 'multifunction_node::multifunction_node(const&)')
+    t = rw.nop_calls(s.text, FGT)
+    out.append(ctor(Slice(s.rel, s.start, s.end, t, s.line), 'mfnode_copy', ['graph_node', 'input_impl_type'], [], 'void mfnode_copy_ctor(struct async_node* self, const struct async_node* other)', rules=[(r'\bother\.', 'other->')]))
+    s = slice_block(FG, r'void reset_node\(reset_flags f\) override', within=W_MFN)
+    note(s, 'multifunction_node::reset_node')
+    out.append(meth(s, r'void reset_node\(reset_flags f\) override', 'void mfnode_reset_node(struct async_node* self, int f)', rules=[(r'input_impl_type::reset\(f\);', 'mfinput_reset(self, f);')], what='multifunction_node::reset_node'))
+    # ---- async_node -----------------------------------------------------------------------------------------------------------------
+    W_AN = r'class async_node\s*: public multifunction_node<'
+    an = CClass(FG, W_AN, 'async_node', rw=rw)
+    if not re.search(r'async_node\* my_node;\s*\} my_gateway;', an.text):
+        raise ExtractionBreak('async_node::my_gateway / receiver_gateway_impl::my_node declarations changed')
+    s = slice_block(FG, r'receiver_gateway_impl\(async_node\* node\)', within=W_AN, ctor=True)
+    note(s, 'async_node::receiver_gateway_impl::receiver_gateway_impl')
+    out.append(ctor(s, 'gateway_impl', ['my_node'], ['my_node'], 'void gateway_impl_ctor(struct gateway_impl* self, struct async_node* node)'))
+    GRAPHM = [(r'&(\w+)->my_graph\b', r'\1->my_graph'),                                    # address of a reference member = the referent's address (our field holds it)
+              (r'((?:\w+->)*\w+)\.(reserve_wait|release_wait)\(\);', r'graph_\2(\1);'), (r'\b(\w+)->(reserve_wait|release_wait)\(\);', r'graph_\2(\1);')]
+    for nm in ('reserve_wait', 'release_wait'):
+        s = slice_block(FG, r'void %s\(\) override' % nm, within=W_AN)
+        note(s, 'async_node::receiver_gateway_impl::' + nm)
+        t = rw.nop_calls(s.text, FGT)
+        t = rw.sub(t, r'void %s\(\) override' % nm, 'void gateway_%s(struct gateway_impl* self)' % nm, 1, 1, name='sig gateway ' + nm)
+        t = _rules(rw, t, GRAPHM + [(r'async_node\* (\w+) =', r'struct async_node* \1 =')], 'gateway ' + nm)
+        hd, body = t[:t.index('{')], t[t.index('{'):]
+        out.append(hd + fields(body, ['my_node']) + '\n')
+    s = slice_block(FG, r'bool try_put\(const Output &i\) override', within=W_AN)
+    note(s, 'async_node::receiver_gateway_impl::try_put')
+    out.append(meth(s, r'bool try_put\(const Output &i\) override', 'bool gateway_try_put(struct gateway_impl* self, output_type* i)',
+                    rules=[(r'(\w+)->try_put_impl\(', r'async_node_try_put_impl(\1, ')], flds=['my_node'], what='gateway try_put'))
+    s = slice_block(FG, r'async_node\* self\(\)', within=W_AN)
+    note(s, 'async_node::self')
+    out.append(rw.sub(rw.sub(s.text, r'async_node\* self\(\)', 'struct async_node* async_node_self(struct async_node* self)', 1, 1, name='sig self()'), r'\bthis\b', 'self', 0, None, name='this') + '\n')
+    s = slice_block(FG, r'bool try_put_impl\(const Output &i\)', within=W_AN)
+    note(s, 'async_node::try_put_impl')
+    t = rw.nop_calls(s.text, FGT)
+    t = rw.sub(t, r'bool try_put_impl\(const Output &i\)', 'bool async_node_try_put_impl(struct async_node* self, output_type* i)', 1, 1, name='sig try_put_impl')
+    t = _rules(rw, t, [(r'multifunction_output<Output> &(\w+) =', r'struct port* \1 ='), (r'output_port<0>\(\*this\)', 'OUTPUT_PORT_0(self)'),
+                       (r'broadcast_cache<output_type>& (\w+) = (\w+)\.successors\(\);', r'struct cache* \1 = PORT_successors(\2);'),
+                       (r'graph_task_list (\w+);', r'graph_task_list \1; LIST_ctor(&\1);'),
+                       (r'(\w+)\.gather_successful_try_puts\(\s*(\w+), (\w+)\s*\)', r'bc_gather_successful_try_puts(\1, \2, &\3)'),
+                       (r'\btasks\.empty\(\)', 'LIST_empty(&tasks)'), (r'\btasks\.pop_front\(\)', 'LIST_pop_front(&tasks)'),
+                       (r'enqueue_in_graph_arena\(', 'STUB_enqueue_in_graph_arena(')], 'try_put_impl')
+    t = rw.asserts(t)
+    t = rw.sub(t, r'\bthis->', 'self->', 0, None, name='this->')
+    t = tag_loops(t, 'antp', rw, names=[(r'LIST_empty', 'drain')])
+    out.append(t + '\n')
+    # constructors
+    ABTEMP = r'async_body<Input, typename base_type::output_ports_type, gateway_type, Body>\s*\(([^()]*)\)'
+    s = slice_block(FG, r'async_node\(\s*graph &g, size_t concurrency,\s*Body body, Policy = Policy\(\), node_priority_t a_priority = no_priority\s*\)', within=W_AN, ctor=True)
+    note(s, 'async_node::async_node')
+    t = rw.nop_calls(s.text, FGT)
+    mt = re.search(ABTEMP, t)
+    if not mt:
+        raise ExtractionBreak('async_node constructor: the async_body temporary handed to the base class was not found')
+    targs = [x.strip() for x in cxx2c.split_args(mt.group(1))]
+    if len(targs) != 2:
+        raise ExtractionBreak('async_node constructor: async_body temporary has %d arguments' % len(targs))
+    rw.fired['temporary async_body(args) in the init list -> local object constructed before the base-class constructor call'] = 1
+    t = t[:mt.start()] + 'tmp_body' + t[mt.end():]
+    t = ctor(Slice(s.rel, s.start, s.end, t, s.line), 'async_node', ['base_type', 'my_gateway'], [],
+             'void async_node_ctor(struct async_node* self, graph* g, size_t concurrency, Body body, int a_priority)', rules=[(r'(?<![\w.>])self\(\)', 'async_node_self(self)')])
+    tmp = '    struct abody tmp_body; async_body_ctor(&tmp_body, %s, %s);\n' % (refarg(targs[0]), targs[1])
+    t = t.replace('{\n', '{\n' + tmp, 1)
+    t = fields(t, ['my_gateway'])
+    out.append(t)
+    s = slice_block(FG, r'async_node\( const async_node &other \)', within=W_AN, ctor=True)
+    note(s, 'async_node::async_node(const&)')
+    t = rw.nop_calls(s.text, FGT)
+    t = rw.casts(t)
+    t = ctor(Slice(s.rel, s.start, s.end, t, s.line), 'async_node_copy', ['base_type', 'sender', 'my_gateway'], [],
+             'void async_node_copy_ctor(struct async_node* self, const struct async_node* other)',
+             rules=[(r'(?<![\w.>])self\(\)', 'async_node_self(self)'), (r'\bother\.', 'other->'), (r'\bthis->', 'self->'),
+                    (r'(\w+(?:->\w+)*)->get_body_ptr\(\)', r'MFBODY_get_body_ptr(\1)'),
+                    (r'\(\(async_body_base_type\*\)\(([^;]*?)\)\)->set_gateway\(', r'async_body_base_set_gateway(((async_body_base_type*)(\1)), ')])
+    t = fields(t, ['my_gateway'])
+    out.append(t)
+    s = slice_block(FG, r'gateway_type& gateway\(\)', within=W_AN)
+    note(s, 'async_node::gateway')
+    out.append(meth(s, r'gateway_type& gateway\(\)', 'struct gateway_impl* async_node_gateway(struct async_node* self)', rules=[(r'return my_gateway;', 'return &my_gateway;')], flds=['my_gateway'], what='gateway()'))
+    s = slice_block(FG, r'void reset_node\( reset_flags f\) override', within=W_AN)
+    note(s, 'async_node::reset_node')
+    out.append(meth(s, r'void reset_node\( reset_flags f\) override', 'void async_node_reset_node(struct async_node* self, int f)', rules=[(r'base_type::reset_node\(f\);', 'mfnode_reset_node(self, f);')], what='async_node::reset_node'))
+    # ---- broadcast_cache::gather_successful_try_puts ----------------------------------------------------------------------------------
+    LOCK = (r'typename mutex_type::scoped_lock (?:l|lock)\(\s*this->my_mutex(?:,\s*(?:true|false))?\s*\);', 'RG_NOP();', 0)
+    PRE = [LOCK,
+           (r'typename successors_type::iterator i = this->my_successors\.begin\(\);', 'size_t i = LIST_begin(self);', 0),
+           (r'this->my_successors\.end\(\)', 'LIST_end(self)', 0),
+           (r'\(\*i\)->try_put_task\(t\)', 'SUCC_try_put_task(self, i, t)', 0),
+           (r'\(\*i\)->register_predecessor\(\*([^()]*)\)', r'SUCC_register_predecessor(self, i, \1)', 0),
+           (r'this->my_successors\.erase\(i\)', 'LIST_erase(self, i)', 0),
+           (r'tasks\.push_back\(\*(\w+)\);', r'LIST_push_back(tasks, \1);', 0)]
+    bc = CClass(CI, r'class broadcast_cache : public successor_cache<T, M> \{', 'cache', tbind={'T': 'output_type'}, rw=rw)
+    g = bc.convert(bc.method(r'bool gather_successful_try_puts\( const T &t, graph_task_list& tasks \)'), 'bc_gather_successful_try_puts', pre=PRE)
+    g = tag_loops(g, 'bcgather', rw, names=[(r'LIST_end', 'succ')])
+    sliced += bc.sliced
+    # ---- graph::reserve_wait / release_wait (the same text as graph_wait.inc) -----------------------------------------------------------
+    gw = []
+    for nm in ('reserve_wait', 'release_wait'):
+        s = slice_block(FG, r'inline void graph::%s\(\)' % nm)
+        note(s, 'graph::' + nm)
+        t = rw.sub(s.text, r'inline void graph::%s\(\)' % nm, 'void graph_%s(graph* self)' % nm, 1, 1, name='sig graph::' + nm)
+        t = rw.sub(t, r'my_wait_context_vertex\.(reserve|release)\(\);', r'VERTEX_\1(&self->my_wait_context_vertex);', 0, None, name='member call')
+        t = rw.nop_calls(t, [r'fgt_reserve_wait', r'fgt_release_wait'])
+        gw.append(t + '\n')
+    en = slice_block(GI, r'enum reset_flags \{')
+    note(en, 'enum reset_flags')
+    protos = en.text + ';\n' + ''.join(_proto(x) for x in out) + _proto(g)
+    common.write(ctx, 'async_node_protos.inc', protos)
+    txt = rw.std('\n'.join(gw)) + '\n' + rw.std(g) + '\n' + rw.std('\n'.join(out))
+    bad = cxx2c.c_residue(txt)
+    if bad:
+        raise ExtractionBreak('async_node.inc: C++ residue %s' % bad)
+    common.write(ctx, 'async_node.inc', txt)
+    fired['async_node'] = dict(rw.fired)
+    return rw.fired.get('loop:bcgather_succ', 0) + rw.fired.get('loop:antp_drain', 0)
+
+
+
+JI = 'include/oneapi/tbb/detail/_flow_graph_join_impl.h'
+
+
+def extract_join_ctor(ctx, sliced, fired):
+    """join_node (queueing / reserving): constructors and copy constructors of join_node_base and join_node_FE, join_helper<N>::set_join_node_pointer
+    (template recursion over the ports -> run-time recursion on N), port::set_join_node_pointer, set_my_node.  One flattened object per node."""
+    rw = Rewriter('join_ctor')
+    out = []
+
+    def note(s, what):
+        sliced.append('%s:%d %s' % (s.rel, s.line, what))
+
+    def fields(t, names):
+        return rw.sub(t, r'(?<![\w.>])(%s)\b(?!\s*\()' % '|'.join(names), r'self->\1', 0, None, name='field')
+
+    def ctor(s, cls, order, scalars, csig, rules=(), pre=(), flds=()):
+        text = s.text
+        for pat, rep in pre:
+            text = rw.sub(text, pat, rep, 0, None, name='%s: %s' % (cls, pat))
+        params, init, body = ctor_init_list(rw, rw.casts(text), order, cls, scalars)
+        t = _rules(rw, init + body, rules, cls)
+        if flds:
+            t = fields(t, flds)
+        t = rw.sub(t, r'\bthis\b', 'self', 0, None, name='this')
+        return csig + ' {\n' + t + '}\n'
+    # join_helper<N> / join_helper<1>
+    HR = [(r'std::get<([^<>]+)>\(\s*my_input\s*\)\.set_join_node_pointer\(', r'PORT_set_join_node_pointer(TUPLE_GET(my_input, \1), '),
+          (r'join_helper<([^<>]+)>::set_join_node_pointer\(', r'JOIN_HELPER_set_join_node_pointer(\1, ')]
+    SIG = r'static inline void set_join_node_pointer\(TupleType &my_input, PortType \*port\)'
+    for within, cfn, csig in ((r'struct join_helper \{', 'jhN', 'void jhN_set_join_node_pointer(int N, struct jport* my_input, struct join_node* port)'),
+                              (r'struct join_helper<1> \{', 'jh1', 'void jh1_set_join_node_pointer(struct jport* my_input, struct join_node* port)')):
+        s = slice_block(JI, SIG, within=within)
+        note(s, 'join_helper::set_join_node_pointer (%s)' % cfn)
+        t = rw.sub(s.text, SIG, csig, 1, 1, name='sig ' + cfn)
+        out.append(_rules(rw, t, HR, cfn) + '\n')
+    # ports
+    for pol, W, base in (('jr', r'class reserving_port : public receiver<T> \{', 'reserving_forwarding_base'), ('jq', r'class queueing_port : public receiver<T>, public item_buffer<T> \{', 'queueing_forwarding_base')):
+        s = slice_block(JI, r'void set_join_node_pointer\(%s \*join\)' % base, within=W)
+        note(s, 'port::set_join_node_pointer (%s)' % pol)
+        t = rw.sub(s.text, r'void set_join_node_pointer\(%s \*join\)' % base, 'void %s_port_set_join_node_pointer(struct jport* self, struct join_node* join)' % pol, 1, 1, name='sig port set_join_node_pointer')
+        hd, body = t[:t.index('{')], t[t.index('{'):]
+        out.append(hd + fields(body, ['my_join']) + '\n')
+    s = slice_block(JI, r'forwarding_base\(graph &g\)', within=r'struct forwarding_base : no_assign \{', ctor=True)
+    note(s, 'forwarding_base::forwarding_base')
+    out.append(ctor(s, 'fwdbase', ['graph_ref'], ['graph_ref'], 'void forwarding_base_ctor(struct join_node* self, graph* g)'))
+    # front ends
+    for pol, pname, cnt in (('jr', 'reserving', 'ports_with_no_inputs'), ('jq', 'queueing', 'ports_with_no_items')):
+        W = r'class join_node_FE<%s, InputTuple, OutputTuple> : public %s_forwarding_base \{' % (pname, pname)
+        fe = CClass(JI, W, 'join_node', rw=rw)
+        fe.harvest_members(['my_inputs', 'my_node', cnt])
+        order = [pname + '_forwarding_base'] + fe.member_names()
+        FR = [(r'&other\b(?!\s*(?:->|\.))', 'other'), (r'join_helper<N>::set_join_node_pointer\(', 'JOIN_HELPER_set_join_node_pointer(N, '), (r'\(other\.%s_forwarding_base::graph_ref\)' % pname, 'other->graph_ref')]
+        s = slice_block(JI, r'join_node_FE\(graph &g\)', within=W, ctor=True)
+        note(s, 'join_node_FE<%s>::join_node_FE' % pname)
+        out.append(ctor(s, pol + '_fe', order, ['my_node'], 'void %s_fe_ctor(struct join_node* self, graph* g)' % pol, rules=FR, flds=['my_inputs', cnt]))
+        s = slice_block(JI, r'join_node_FE\(const join_node_FE& other\)', within=W, ctor=True)
+        note(s, 'join_node_FE<%s>::join_node_FE(const&)' % pname)
+        out.append(ctor(s, pol + '_fe_copy', order, ['my_node'], 'void %s_fe_copy_ctor(struct join_node* self, const struct join_node* other)' % pol, rules=FR, flds=['my_inputs', cnt]))
+        s = slice_block(JI, r'void set_my_node\(base_node_type \*new_my_node\)', within=W)
+        note(s, 'join_node_FE<%s>::set_my_node' % pname)
+        t = rw.sub(s.text, r'void set_my_node\(base_node_type \*new_my_node\)', 'void %s_fe_set_my_node(struct join_node* self, struct join_node* new_my_node)' % pol, 1, 1, name='sig set_my_node')
+        hd, body = t[:t.index('{')], t[t.index('{'):]
+        out.append(hd + fields(body, ['my_node']) + '\n')
+    # back end
+    W = r'class join_node_base : public graph_node, public join_node_FE<JP, InputTuple, OutputTuple>,'
+    jb = CClass(JI, W, 'join_node', rw=rw)
+    jb.harvest_members(['forwarder_busy', 'my_successors'])
+    order = ['graph_node', 'input_ports_type', 'sender'] + jb.member_names()
+    BR = [(r'input_ports_type::set_my_node\(', 'FE_set_my_node(self, '), (r'my_aggregator\.initialize_handler\(handler_type\(this\)\);', 'STUB_initialize_handler(self);'),
+          (r'other\.graph_node::my_graph', 'other->my_graph')]
+    s = slice_block(JI, r'join_node_base\(graph &g\)', within=W, ctor=True)
+    note(s, 'join_node_base::join_node_base')
+    out.append(ctor(s, 'jbase', order, ['forwarder_busy'], 'void join_node_base_ctor(struct join_node* self, graph* g)', rules=BR))
+    s = slice_block(JI, r'join_node_base\(const join_node_base& other\)', within=W, ctor=True)
+    note(s, 'join_node_base::join_node_base(const&)')
+    out.append(ctor(s, 'jbase_copy', order, ['forwarder_busy'], 'void join_node_base_copy_ctor(struct join_node* self, const struct join_node* other)', rules=BR))
+    s = slice_block(FG, r'inline graph_node::graph_node\(graph& g\)', ctor=True)
+    note(s, 'graph_node::graph_node')
+    t = rw.sub(s.text, r'inline graph_node::graph_node\(graph& g\)', 'graph_node(graph& g)', 1, 1, name='sig graph_node')
+    out.append(ctor(Slice(s.rel, s.start, s.end, t, s.line), 'graph_node', ['my_graph'], ['my_graph'], 'void graph_node_ctor(struct join_node* self, graph* g)',
+                    rules=[(r'my_graph\.register_node\(this\);', 'STUB_register_node(my_graph, self);')], flds=['my_graph']))
+    txt = rw.std(''.join(_proto(x) for x in out) + '\n'.join(out))
+    bad = cxx2c.c_residue(txt)
+    if bad:
+        raise ExtractionBreak('join_ctor.inc: C++ residue %s' % bad)
+    common.write(ctx, 'join_ctor.inc', txt)
+    fired['join_node constructors'] = dict(rw.fired)
+
+
+
+II = 'include/oneapi/tbb/detail/_flow_graph_indexer_impl.h'
+
+
+def extract_indexer_ctor(ctx, sliced, fired, m15):
+    """indexer_node: constructors / copy constructor of indexer_node_base, indexer_helper<.., N>::set_indexer_node_pointer (template recursion -> run-time recursion on N),
+    indexer_input_port::set_up / try_put_task, do_try_put<Node, T, K> (the tag K is a run-time value; a pointer to the instantiation do_try_put<.., K> is the number K)."""
+    rw = Rewriter('indexer_ctor')
+    out = []
+
+    def note(s, what):
+        sliced.append('%s:%d %s' % (s.rel, s.line, what))
+
+    def fields(t, names):
+        return rw.sub(t, r'(?<![\w.>])(%s)\b(?!\s*\()' % '|'.join(names), r'self->\1', 0, None, name='field')
+    HR = [(r'typedef typename std::tuple_element<[^;]*>::type T;', 'RG_NOP();'),
+          (r'auto (\w+) = do_try_put<IndexerNodeBaseType, T, ([^<>;]+)>;', r'fwd_fn \1 = DO_TRY_PUT_INSTANCE(\2);'),
+          (r'std::get<([^<>]+)>\(\s*my_input\s*\)\.set_up\(', r'iport_set_up(TUPLE_GET(my_input, \1), '),
+          (r'indexer_helper<TupleTypes,([^<>]+)>::template set_indexer_node_pointer<IndexerNodeBaseType,PortTuple>\(', r'INDEXER_HELPER_set_indexer_node_pointer(\1, ')]
+    SIG = r'static inline void set_indexer_node_pointer\(PortTuple &my_input, IndexerNodeBaseType \*p, graph& g\)'
+    for within, cfn, csig in ((r'struct indexer_helper \{', 'ihN', 'void ihN_set_indexer_node_pointer(int N, struct iport* my_input, struct inode* p, graph* g)'),
+                              (r'struct indexer_helper<TupleTypes,1> \{', 'ih1', 'void ih1_set_indexer_node_pointer(struct iport* my_input, struct inode* p, graph* g)')):
+        s = slice_block(II, SIG, within=within)
+        note(s, 'indexer_helper::set_indexer_node_pointer (%s)' % cfn)
+        t = rw.sub(s.text, SIG, csig, 1, 1, name='sig ' + cfn)
+        out.append(_rules(rw, t, HR, cfn) + '\n')
+    s = m15.resolved(slice_block(II, r'graph_task\* do_try_put\(const T &v, void \*p'), 'do_try_put')
+    note(s, 'do_try_put')
+    t = rw.sub(s.text, r'graph_task\* do_try_put\(const T &v, void \*p\)', 'graph_task* do_try_put(int K, item_type* v, void* p)', 1, 1, name='sig do_try_put (template parameter K -> argument)')
+    t = _rules(rw, t, [(r'typename IndexerNodeBaseType::output_type o\(([^;]*)\);', r'tagged_msg o; TAGGED_ctor(&o, \1);'),
+                       (r'reinterpret_cast<IndexerNodeBaseType \*>\(p\)->try_put_task\(', 'NODE_try_put_task(((struct inode*)(p)), ')], 'do_try_put')
+    out.append(t + '\n')
+    W = r'class indexer_input_port : public receiver<T> \{'
+    ip = CClass(II, W, 'iport', rw=rw)
+    ip.harvest_members(['my_indexer_ptr', 'my_try_put_task', 'my_graph'])
+    s = slice_block(II, r'void set_up\(void\* p, forward_function_ptr f, graph& g\)', within=W)
+    note(s, 'indexer_input_port::set_up')
+    t = rw.sub(s.text, r'void set_up\(void\* p, forward_function_ptr f, graph& g\)', 'void iport_set_up(struct iport* self, void* p, fwd_fn f, graph* g)', 1, 1, name='sig set_up')
+    t = rw.sub(t, r'= &g;', '= g;', 0, None, name='address of reference parameter')
+    hd, body = t[:t.index('{')], t[t.index('{'):]
+    out.append(hd + fields(body, ip.member_names()) + '\n')
+    s = m15.resolved(slice_block(II, r'graph_task\* try_put_task\(const T &v\) override', within=W), 'iport_try_put_task')
+    note(s, 'indexer_input_port::try_put_task')
+    t = rw.sub(s.text, r'graph_task\* try_put_task\(const T &v\) override', 'graph_task* iport_try_put_task(struct iport* self, item_type* v)', 1, 1, name='sig port try_put_task')
+    t = rw.sub(t, r'(?<![\w.>])my_try_put_task\(', 'CALL_FWD_FN(my_try_put_task, ', 0, None, name='call through function pointer')
+    hd, body = t[:t.index('{')], t[t.index('{'):]
+    out.append(hd + fields(body, ip.member_names()) + '\n')
+    W = r'class indexer_node_base : public graph_node, public indexer_node_FE<InputTuple, OutputType,StructTypes>,'
+    nb = CClass(II, W, 'inode', rw=rw)
+    nb.harvest_members(['my_successors'])
+    order = ['graph_node', 'input_ports_type', 'sender', 'my_successors']
+    BR = [(r'indexer_helper<StructTypes,N>::set_indexer_node_pointer\(', 'INDEXER_HELPER_set_indexer_node_pointer(N, '), (r'\bthis->my_inputs\b', 'self->my_inputs'),
+          (r'my_aggregator\.initialize_handler\(handler_type\(this\)\);', 'STUB_initialize_handler(self);'), (r'\bother\.', 'other->')]
+    for sig, cls, csig in ((r'indexer_node_base\(graph& g\)', 'inode', 'void indexer_node_base_ctor(struct inode* self, graph* g)'),
+                           (r'indexer_node_base\(const indexer_node_base& other\)', 'inode_copy', 'void indexer_node_base_copy_ctor(struct inode* self, const struct inode* other)')):
+        s = slice_block(II, sig, within=W, ctor=True)
+        note(s, 'indexer_node_base::' + cls)
+        params, init, body = ctor_init_list(rw, rw.casts(s.text), order, cls, [])
+        t = _rules(rw, init + body, [(r'&other\b(?!\s*(?:->|\.))', 'other')] + BR, cls)
+        t = rw.sub(t, r'\bthis\b', 'self', 0, None, name='this')
+        out.append(csig + ' {\n' + t + '}\n')
+    txt = rw.std(''.join(_proto(x) for x in out) + '\n'.join(out))
+    bad = cxx2c.c_residue(txt)
+    if bad:
+        raise ExtractionBreak('indexer_ctor.inc: C++ residue %s' % bad)
+    common.write(ctx, 'indexer_ctor.inc', txt)
+    fired['indexer_node constructors'] = dict(rw.fired)
+
+
+ASYNC_LOOPS = 2
+
+
 def extract(ctx):
     sliced, fired = [], {}
     m15 = c15()
     extract_buffer_node(ctx, sliced, fired, m15)
     extract_caches(ctx, sliced, fired, m15)
     extract_wait(ctx, sliced, fired)
+    global ASYNC_LOOPS
+    ASYNC_LOOPS = extract_async(ctx, sliced, fired, m15)
+    extract_join_ctor(ctx, sliced, fired)
+    extract_indexer_ctor(ctx, sliced, fired, m15)
     more = [(r'const item_type& front\(\) const', 'item_buffer_front', [(r'return get_my_item\(my_head\);', 'return get_my_item(my_head);', 1)], 'const item_type*'),
             (r'void reserve_item\(size_type i\)', 'item_buffer_reserve_item', [(r'!my_item_reserved\(i\)', 'element(i).state != reserved_item', 1)], None),
             (r'void release_item\(size_type i\)', 'item_buffer_release_item', [(r'my_item_reserved\(i\)', 'element(i).state == reserved_item', 1)], None),
@@ -434,6 +960,25 @@ def build(ctx):
     # domain split (finding F10): try_get on a plain buffer_node whose ONLY item is under reservation
     jobs.append(Job('bufnode.pop_reserved', C, 'h_bn_pop_reserved', route='LC', defines=['BN'], loops=True, nloops=0, replace=['item_buffer_grow_my_array'], timeout=300,
                     target='buffer_node: handle_operations_impl(req_item) + internal_pop + item_buffer::pop_back while the only buffered item is reserved', source=FG))
+    CA = os.path.join(HERE, 'c14_async.c')
+    AT = 'async_node + multifunction_node / multifunction_input / function_input_base / graph_node constructors + async_body / async_body_base / multifunction_body_leaf'
+    jobs.append(Job('async.ctor', CA, 'h_async_ctor', route='LF', defines=['ASYNC'], timeout=600, target='async_node::async_node(graph&, concurrency, body): ' + AT, source=FG))
+    jobs.append(Job('async.copy_ctor', CA, 'h_async_copy_ctor', route='LF', defines=['ASYNC'], timeout=600, target='async_node::async_node(const async_node&): ' + AT + ' + multifunction_body_leaf::clone / get_body_ptr + async_body_base::set_gateway', source=FG))
+    jobs.append(Job('async.reset_node', CA, 'h_async_reset', route='LF', defines=['ASYNC'], timeout=600, inputs=['IN_flags'],
+                    target='async_node::reset_node -> multifunction_node::reset_node -> multifunction_input::reset + function_input_base::reset_function_input_base + multifunction_body_leaf::clone, then apply_body_impl_bypass', source=NI))
+    jobs.append(Job('async.body_call', CA, 'h_async_body_call', route='LF', defines=['ASYNC'], timeout=600,
+                    target='multifunction_input::apply_body_impl_bypass -> multifunction_body_leaf::operator() -> async_body::operator()', source=FG))
+    jobs.append(Job('async.gateway.wait', CA, 'h_async_gateway_wait', route='LF', defines=['ASYNC'], timeout=600,
+                    target='async_node::gateway + receiver_gateway_impl::reserve_wait / release_wait + graph::reserve_wait / release_wait', source=FG))
+    jobs.append(Job('async.gateway.try_put', CA, 'h_async_try_put', route='LC', defines=['ASYNCPUT'], loops=True, nloops=ASYNC_LOOPS, timeout=900,
+                    target='receiver_gateway_impl::try_put + async_node::try_put_impl + broadcast_cache::gather_successful_try_puts', source=FG))
+    for pol, dfn in (('queueing', []), ('reserving', ['JP_RESERVING'])):
+        JT = 'join_node_base<%s> + join_node_FE<%s> + forwarding_base + graph_node constructors, join_helper<N>::set_join_node_pointer (N = 1..10), %s_port::set_join_node_pointer, set_my_node' % (pol, pol, pol)
+        jobs.append(Job('join.ctor.' + pol, CA, 'h_join_ctor', route='LW', defines=['JOINCTOR'] + dfn, unwind=12, timeout=600, inputs=['IN_N', 'IN_k'], target='join_node_base(graph&): ' + JT, source=JI))
+        jobs.append(Job('join.copy_ctor.' + pol, CA, 'h_join_copy_ctor', route='LW', defines=['JOINCTOR'] + dfn, unwind=12, timeout=600, inputs=['IN_N', 'IN_k'], target='join_node_base(const join_node_base&): ' + JT, source=JI))
+    IT = 'indexer_node_base constructors + indexer_helper<.., N>::set_indexer_node_pointer (N = 1..10) + indexer_input_port::set_up / try_put_task + do_try_put<.., K>'
+    jobs.append(Job('indexer.ctor', CA, 'h_indexer_ctor', route='LW', defines=['INDEXERCTOR'], unwind=12, timeout=600, inputs=['IN_N', 'IN_k'], target='indexer_node_base(graph&): ' + IT, source=II))
+    jobs.append(Job('indexer.copy_ctor', CA, 'h_indexer_copy_ctor', route='LW', defines=['INDEXERCTOR'], unwind=12, timeout=600, inputs=['IN_N', 'IN_k'], target='indexer_node_base(const indexer_node_base&): ' + IT, source=II))
     return {
         'jobs': jobs, 'sliced': sliced, 'fired': fired,
         'trusted': ['the aggregator runs handle_operations on one thread at a time and hands every record to the handler exactly once (proved for aggregator_generic under C13, job agg.execute); '
@@ -446,28 +991,50 @@ def build(ctx):
                     'successor / predecessor objects behind the caches: receiver::try_put_task, register_predecessor, sender::try_get, try_reserve, try_release, try_consume, register_successor are nondeterministic stubs (every accept / reject pattern)',
                     'std::list / std::queue semantics in the cache jobs: positional view (iterator = position, erase(i) -> i+1, queue pop = next position, push = append)',
                     'buffer_operation constructors -> OP_INIT (type, elem, ltask = r = nullptr, status = WAIT)',
-                    'reference_vertex jobs: the parent vertex (wait_context_vertex -> wait_context::add_reference) is a ghost counter P; r1::get_thread_reference_vertex returns the calling thread\'s vertex whose parent is its argument (stub records the argument)'],
+                    'reference_vertex jobs: the parent vertex (wait_context_vertex -> wait_context::add_reference) is a ghost counter P; r1::get_thread_reference_vertex returns the calling thread\'s vertex whose parent is its argument (stub records the argument)',
+                    'async / join / indexer jobs: C++ object-model facts stated by the harness, not extracted: base classes and members are initialised in declared order (init lists are re-ordered accordingly from the harvested class text); '
+                    'the implicit copy constructor of async_body is memberwise (gateway pointer + functor: INIT_mfleaf_body); the user functor Body is copyable (an int id); `OutputTuple(Args(g)...)` copy-constructs every port from a temporary that then dies (ports_ctor); '
+                    'virtual calls on multifunction_body (clone, get_body_ptr, operator()) reach multifunction_body_leaf, the only implementer; std::get<I>(tuple) = element I of an array; the explicit specialisations join_helper<1> / indexer_helper<..,1> end the template recursion; '
+                    'a pointer to the instantiation do_try_put<Node, T, K> is the number K',
+                    'async jobs: new / delete of body objects -> malloc / free (any later access to a deleted body fails a pointer check); VERTEX_release may free the node (the owner may destroy it once wait_for_all can return); '
+                    'function_input_base input queue, predecessor cache, aggregator handler initialisation, graph::register_node, reset_receiver, clear_element<N>::clear_this, try_get_postponed_task (-> job node.handle_one_operation): stubs',
+                    'async.gateway.try_put: graph_task_list is viewed positionally (push_back appends, pop_front takes the oldest, empty iff all popped: the list code itself - 3 small functions of _flow_graph_impl.h - is not extracted); '
+                    'the successors behind the cache are nondeterministic stubs (every accept / reject / pull-mode answer); enqueue_in_graph_arena is a stub that counts (an inactive graph drops the task there: not modelled)'],
         'drops': ['preview metainfo arguments / #if __TBB_PREVIEW_FLOW_GRAPH_TRY_PUT_AND_WAIT arms resolved to 0', 'status atomics -> SET_STATUS (handler-only access)', 'aligned_space -> struct',
                   'scoped_lock objects of the caches -> RG_NOP (mutual exclusion is C08\'s)', 'template parameter derived_type bound to the same flattened C object; virtual internal_* calls dispatched by macro to the buffer_node or queue_node override',
-                  'fgt_* tracing calls -> RG_NOP', 'memory orders of reserved_src / m_ref_count (SC assumed)', 'execution_data arguments'],
+                  'fgt_* tracing calls -> RG_NOP', 'memory orders of reserved_src / m_ref_count (SC assumed)', 'execution_data arguments',
+                  'async / join / indexer constructors: the inheritance chain is flattened into one C object per node; constructor init lists -> assignments (built-in members) or INIT_<class>_<item>(self, args) calls that the harness maps to the extracted '
+                  'constructor of the base / member; the async_body temporary in async_node\'s init list -> a local object constructed before the base-class constructor call; noexcept(...) operands, Policy tag parameters, node_set constructors (preview) dropped; '
+                  'template recursion over the tuple of ports -> run-time recursion on N (fully unwound, N <= 10); reference parameters / reference members -> pointers'],
         'not_decided': ['sequencer_node / priority_queue_node as derived types of the buffer handler (sequencer internal_push is under C15; priority_queue_node has its own handler, C13)',
                         'batches of more than one operation per handler run are covered as a sequence of inductive steps only for the state invariant; the combined ltask of a multi-record batch is not modelled',
                         'interleavings of several cache calls on one cache (the cache jobs prove one call in isolation; concurrent add/remove on the same predecessor queue between the two locked sections of get_item / try_reserve is not modelled)',
                         'successor_cache::register_successor / remove_successor, broadcast_cache::gather_successful_try_puts, predecessor_cache::reset / node_cache::remove',
                         'a successor that rejects AND refuses pull mode (write_once_node, a full sequencer duplicate): the item stays buffered and is offered again only at the next put / release / consume / registration (ghost g_refused excludes it from the forwarding invariant)',
                         'graph::wait_for_all itself (lambda + try_call/on_exception: exception plumbing is cut by extraction), wait_context::add_reference / notify_waiters (sleep/wake-up: C02), get_thread_reference_vertex map clean-up',
-                        'join_node ports, limiter_node (C15), input_node, overwrite/write_once, async_node gateways, topology quantifier (fan-in/fan-out/cycles) - only per-node / per-edge inductive steps are proved',
+                        'join_node port protocols (try_put / reserve / consume on the ports, tuple building; key_matching ports and their constructors), limiter_node (C15), input_node, overwrite/write_once, '
+                        'topology quantifier (fan-in/fan-out/cycles) - only per-node / per-edge inductive steps are proved',
+                        'async_node: the aggregator path in front of the body (try_put_task -> function_input_base, shared with function_node: job node.handle_one_operation) is not re-proved for the multifunction instantiation; '
+                        'async_node::copy_function_object, ~multifunction_input only sliced (not under an obligation); interleavings of a gateway try_put from a foreign thread with graph tasks on the same successor cache '
+                        '(the cache mutex is C08\'s; one call in isolation is proved); enqueue_in_graph_arena / is_graph_active (a gateway try_put after cancellation drops the tasks its successors returned)',
+                        'copy constructors of function_node, continue_node, split_node, composite_node, sequencer/priority_queue/limiter/overwrite nodes (only async_node, multifunction_node/-input, join_node<queueing|reserving>, indexer_node are under contract); '
+                        'multifunction_node with more than one output port (the port tuple is modelled with the single port async_node has)',
                         'after cancellation or an exception no further body starts',
                         'aggregator exclusivity itself'],
         'assumptions': ['app_body_bypass operations are issued once per finished body (ghost running-bodies count)',
                         'buffer handler: only the holder of the reservation issues rel_res / con_res; try_fwd_task records are issued only by the forward task (forwarder_busy set); buffers below 2^16 items, indices below 2^62',
                         'buffer handler: the graph-activity flag does not change during one handler run',
                         'reference_vertex: only the owning thread calls reserve() on its thread-local vertex (get_thread_reference_vertex is a per-thread map); release() is called only for references whose reserve() has returned; counters below 2^62',
-                        'sequentially consistent atomics'],
+                        'sequentially consistent atomics',
+                        'async.reset_node / async.body_call / async.gateway.*: the node is in a state established by its constructors (jobs async.ctor / async.copy_ctor prove exactly that state: both bodies live, distinct, carrying this node\'s gateway, gateway naming the node); '
+                        'reset_node is called while the graph is idle (documented precondition of graph::reset)',
+                        'join / indexer constructor jobs: 1 <= N <= 10 ports (the library\'s MAX_TUPLE limit)'],
     }
 
 
 def replay(ctx, jobname, failure):
+    if os.environ.get('C14_SKIP_NATIVE'):      # mutation testing of the spec itself: the library build from source takes minutes under load
+        return {'reproduced': False, 'detail': 'native replay skipped (C14_SKIP_NATIVE)'}
     exe = native.build([os.path.join(HERE, 'c14_replay.cpp')], os.path.join(ctx.work, 'c14_replay'), flags=['-fno-access-control'], link_tbb=True)
     rc, out = native.run([exe, jobname], timeout=120)
     rep = {'cmd': exe + ' ' + jobname, 'rc': rc, 'output': out[-1500:], 'reproduced': False, 'detail': 'native recipes found no failing sequence'}
